@@ -258,6 +258,8 @@ def call_sites(project: Project, target: str) -> List[tuple]:
                 if isinstance(n, ast.Call) and sc.resolve_call(n) == target:
                     out.append((None, m, n))
         for fi in m.funcs.values():
+            if fi.qualname in getattr(project, "transparent", ()):
+                continue        # a helper inlined into every caller: its calls are counted there, in the caller's context
             sc = Scope(project, fi)
             for n in own_nodes(fi.node):
                 if isinstance(n, ast.Call) and sc.resolve_call(n) == target:
